@@ -38,6 +38,9 @@ func extraJobs(tier string) []job {
 	for i := 0; i < 4; i++ {
 		j = append(j, job{"revoke", i, 0, 0})
 	}
+	for i := 0; i < 2; i++ {
+		j = append(j, job{"interrupt", i, 0, 0})
+	}
 	return j
 }
 
@@ -55,6 +58,8 @@ func runExtra(seed int64, j job) ScenarioOut {
 		return scenarioHeavy(seed, j.idx)
 	case "revoke":
 		return scenarioRevoke(seed, j.idx)
+	case "interrupt":
+		return scenarioInterrupt(seed, j.idx)
 	}
 	return ScenarioOut{Name: j.kind, Stats: map[string]int{}}
 }
@@ -481,6 +486,10 @@ func scenarioPerm(seed int64, idx int) ScenarioOut {
 			v.CreatedAt = time.Now().Add(-3*time.Hour + time.Duration(len(set))*time.Second)
 			v.Hash, v.Signature = sealer.Sign(v.VerifInitData())
 		}
+		if idx%4 == 1 { // sealed by a node whose clock runs an hour fast: nothing forbids it, and local vertices are then created on top
+			v.CreatedAt = time.Now().Add(time.Hour + time.Duration(len(set))*time.Second)
+			v.Hash, v.Signature = sealer.Sign(v.VerifInitData())
+		}
 		w.remember(&v)
 		set = append(set, &v)
 		return &v
@@ -532,7 +541,7 @@ func scenarioPerm(seed int64, idx int) ScenarioOut {
 		if pr.Intn(3) == 0 {
 			dst.retry(-1)
 		}
-		if k == 2 && pr.Intn(2) == 0 { // interleaved local proposal
+		if k == 2 && (pr.Intn(2) == 0 || idx%4 == 1) { // interleaved local proposal
 			t := craftTrx(s.recvRich, s.users[0].Address(), "local", []byte("x"), spice.Melange{}, s.now())
 			if v, cls := dst.create(&t, -1); cls == "ROk" {
 				ref.add(v, -1) // the reference receives it by gossip so that both hold the same set
@@ -543,6 +552,15 @@ func scenarioPerm(seed int64, idx int) ScenarioOut {
 	for i := 0; i < 200; i++ {
 		if had, _ := dst.retry(-1); !had {
 			break
+		}
+	}
+	if idx%4 == 1 { // a local vertex on top of the fast-clock history: it must verify here and be admitted by the reference node
+		t := craftTrx(s.recvRich, s.users[0].Address(), "local-after", []byte("y"), spice.Melange{}, s.now())
+		if v, cls := dst.create(&t, -1); cls == "ROk" {
+			if got := ref.add(v, -1); got != "ROk" {
+				dst.violate("C09", "created-vertex-refused-by-peer", fmt.Sprintf("vertex %d created here on top of vertices sealed by a fast clock is refused by another node: %s", w.H(v.Hash), got))
+			}
+			refSnap = w.canon(&ref.prev)
 		}
 	}
 	if idx%8 == 3 {
@@ -715,7 +733,28 @@ func scenarioLoad(seed int64, idx int) ScenarioOut {
 			}
 		}
 	}
+	// vertices gossiped to the node WHILE it is still syncing (a self-sealed one, one with an empty transaction, an ordinary one): all are
+	// refused as "not loaded"; none of them may turn up in the ledger later through the retry path, whose entry they never legitimately passed
+	early := corrupt == 0 && idx%2 == 0
+	if early {
+		t1 := craftTrx(w.wallets[5], s.users[0].Address(), "self-early", nil, spice.Melange{Currency: 1}, s.now())
+		v1, _ := accountant.NewVertex(t1, gv.Hash, gv.Hash, gv.Weight+1, w.wallets[5])
+		t2 := craftTrx(s.users[0], s.users[1].Address(), "empty-early", nil, spice.Melange{}, s.now())
+		v2, _ := accountant.NewVertex(t2, gv.Hash, gv.Hash, gv.Weight+1, w.wallets[5])
+		t3 := craftTrx(s.users[0], s.users[1].Address(), "data-early", []byte("d"), spice.Melange{}, s.now())
+		v3, _ := accountant.NewVertex(t3, gv.Hash, gv.Hash, gv.Weight+1, w.wallets[5])
+		for _, v := range []*accountant.Vertex{&v1, &v2, &v3} {
+			w.remember(v)
+			dst.add(v, -1)
+		}
+		dst.stats["load.vertices_gossiped_before_loading"] += 3
+	}
 	ok := loadInto(dst, st, w)
+	if early && ok {
+		for k := 0; k < 4; k++ {
+			dst.retry(-1)
+		}
+	}
 	dst.stats[fmt.Sprintf("load.corrupt%d", corrupt)]++
 	if ok != expectLoaded {
 		if expectLoaded {
@@ -1015,4 +1054,85 @@ func scenarioRevoke(seed int64, idx int) ScenarioOut {
 	o := s.out("revoke", true)
 	o.NonTriv = true
 	return o
+}
+
+
+// ---------------------------------------------------------------- an interrupted truncation followed by a complete one
+
+// scenarioInterrupt: a truncation that is abandoned while it checkpoints vertices (nothing is deleted, no funds are written yet),
+// then a truncation that is allowed to finish (or refuses): no reported balance may change at any point (C06 / C07). Monitors only:
+// the partial state of the abandoned run is not modelled, so nothing is recorded for the acceptor.
+func scenarioInterrupt(seed int64, idx int) ScenarioOut {
+	w := newWorld(seed*7100003+int64(idx), 6)
+	s := &sim{w: w, bal: map[string]int64{}, pending: map[int][]*accountant.Vertex{}, clock: time.Now().Add(-time.Hour)}
+	s.genesisSigner, s.recvRich, s.users = w.wallets[0], w.wallets[1], w.wallets[1:5]
+	n := newNode(w, fmt.Sprintf("intr%d", idx), w.wallets[0])
+	n.snapEvery = false
+	s.nodes = []*Node{n}
+	defer n.close()
+	if gv, _ := n.genesis(s.recvRich.Address(), spice.Melange{Currency: 1000000}); gv == nil {
+		return s.out("interrupt", false)
+	}
+	// payments that end up below the cut, then fillers
+	for k := 0; k < 60+idx*7; k++ {
+		t := craftTrx(s.recvRich, w.wallets[5].Address(), "f", []byte("n"), spice.Melange{}, s.now())
+		n.createQuiet(&t)
+	}
+	for k, u := range s.users[1:] {
+		t := craftTrx(s.recvRich, u.Address(), "pay", nil, spice.Melange{Currency: uint64(5 + k), SupplementaryCurrency: uint64(1 + k)}, s.now())
+		n.createQuiet(&t)
+	}
+	for k := 0; k < 1100; k++ {
+		t := craftTrx(s.recvRich, w.wallets[5].Address(), "f", []byte("n"), spice.Melange{}, s.now())
+		n.createQuiet(&t)
+	}
+	observe := func() map[string]string {
+		o := map[string]string{}
+		for _, wl := range w.wallets {
+			b, err := n.ab.CalculateBalance(context.Background(), wl.Address())
+			o[wl.Address()] = fmt.Sprintf("%v/%v", b.Spice, err != nil)
+		}
+		return o
+	}
+	cmp := func(o0, o1 map[string]string, when string) {
+		for a, b0 := range o0 {
+			if o1[a] != b0 {
+				what := fmt.Sprintf("wallet %d: %s before, %s %s (value/error)", w.A(a), b0, o1[a], when)
+				n.violate("C06", "balance-changed-around-interrupted-truncation", what)
+				n.violate("C07", "balance-changed-around-interrupted-truncation", what)
+			}
+		}
+	}
+	o0 := observe()
+	run := func(ctx context.Context) (err error, hung bool) {
+		done := make(chan error, 1)
+		go func() {
+			e, pn := safely(func() error { return n.ab.VerifTruncate(ctx) })
+			if pn {
+				n.violate("C08", "truncate-panics", e.Error())
+			}
+			done <- e
+		}()
+		select {
+		case err = <-done:
+			return err, false
+		case <-time.After(90 * time.Second):
+			n.violate("C08", "truncate-hangs", "truncate did not return within 90 s")
+			return nil, true
+		}
+	}
+	k := 1000 + 20 + idx*13 // (truncateDiff = 1000 walked vertices to find the cut) the caller goes away while the vertices below the cut are being checkpointed
+	err1, hung := run(ctxWithBudget(k))
+	if hung {
+		return s.out("interrupt", false)
+	}
+	n.stats[fmt.Sprintf("interrupt.first_truncation_err=%v", err1 != nil)]++
+	cmp(o0, observe(), "after an interrupted truncation")
+	err2, hung := run(context.Background())
+	if hung {
+		return s.out("interrupt", false)
+	}
+	n.stats[fmt.Sprintf("interrupt.second_truncation_err=%v", err2 != nil)]++
+	cmp(o0, observe(), "after the truncation that followed an interrupted one")
+	return s.out("interrupt", true)
 }
